@@ -135,7 +135,7 @@ func BuildModularGenome(t *Tape) *genetics.Genome {
 	if len(g.Genes) > 0 {
 		innov = g.Genes[len(g.Genes)-1].InnovationNum + 1
 	}
-	nMods := t.Range("nMods", 1, 2)
+	nMods := t.Range("nMods", 1, 3)
 	nodes := append([]*network.NNode(nil), g.Nodes...)
 	var mods []*genetics.MIMOControlGene
 	acts := []neatmath.NodeActivationType{neatmath.MultiplyModuleActivation, neatmath.MaxModuleActivation, neatmath.MinModuleActivation}
@@ -161,6 +161,13 @@ func BuildModularGenome(t *Tape) *genetics.Genome {
 		}
 		for _, in := range io[:len(io)-1] {
 			cn.AddIncoming(in, 1.0)
+		}
+		// modules may share inputs: a node that feeds an earlier module (or an ordinary hidden node) also feeds this one
+		if m > 0 && t.Chance("modSharedInput", 1, 2) {
+			cn.AddIncoming(ioAll[0][0], 1.0)
+		}
+		if len(hid) > 0 && t.Chance("modHiddenInput", 1, 3) {
+			cn.AddIncoming(hid[t.Draw("modHidden", len(hid))], 1.0)
 		}
 		cn.AddOutgoing(io[len(io)-1], 1.0)
 		mg := genetics.NewMIMOGene(cn, innov, t.Float("modMut"), !t.Chance("modDisabled", 1, 5))
